@@ -23,6 +23,12 @@ Open ==            \* Server.reopen(): close() - the listen socket and every con
   /\ backlog' = <<>>                                   \* what waited on the old listen socket is gone with it
   /\ cx' = [p \in Peers |-> None]                      \* a closed connection cannot finish its handshake: forgotten
   /\ UNCHANGED <<ix, copen, cconn>> /\ Log("open", <<>>)
+OpenFail ==        \* Server.reopen() when the address cannot be bound (in use): everything is closed, a listen socket is made,
+                   \* bind() fails, that socket is closed again: the server is left closed, holding nothing
+  /\ next <= MaxSocks
+  /\ listen' = None /\ next' = next + 1 /\ open' = open \ Held
+  /\ backlog' = <<>> /\ cx' = [p \in Peers |-> None]
+  /\ UNCHANGED <<ix, copen, cconn>> /\ Log("openfail", <<>>)
 PeerConnects(p) == \* a peer's connection is completed by the kernel and waits in the accept queue (socket made at accept)
   /\ listen # None /\ Len(backlog) < 2
   /\ backlog' = Append(backlog, p) /\ UNCHANGED <<next, open, listen, cx, ix, copen, cconn>> /\ Log("peer", <<p>>)
@@ -77,7 +83,7 @@ CClose ==
   /\ UNCHANGED <<next, listen, backlog, cx, ix>> /\ Log("cclose", <<>>)
 HsChoices == [Peers -> {"ok", "block", "abort"}]
 Next == /\ Len(h) < MaxOps
-        /\ \/ Open \/ Close \/ (ClientOps /\ (COpen \/ CClose \/ CTimeout))
+        /\ \/ Open \/ OpenFail \/ Close \/ (ClientOps /\ (COpen \/ CClose \/ CTimeout))
            \/ \E p \in Peers : PeerConnects(p) \/ Remove(p)
            \/ \E hs \in (IF Tls THEN HsChoices ELSE {[p \in Peers |-> "ok"]}) : ServiceConnects(hs)
            \/ (ClientOps /\ \E r \in {"ok", "wait", "refused"} : CConnect(r))
@@ -86,6 +92,6 @@ Spec == Init /\ [][Next]_vars
 MCView == <<next, open, listen, backlog, cx, ix, copen, cconn, Len(h)>>
 \* C11: nothing the endpoint opened stays open without the endpoint holding it, so close() can and does release it
 NoOrphan == open \subseteq (Held \cup {copen}) \ {None}
-ClosedIsClosed == (h # <<>> /\ h[Len(h)].op = "close") => open \subseteq {copen}
+ClosedIsClosed == (h # <<>> /\ h[Len(h)].op \in {"close", "openfail"}) => open \subseteq {copen}
 ClientSingle == Cardinality(open \ (Held \ {None})) <= 1 /\ (copen = None => open \subseteq Held)
 ====
